@@ -34,6 +34,7 @@ verus! {
 //@include spec/subst.rs
 //@include spec/rewrites.rs
 //@include spec/colour.rs
+//@include spec/sem_laws.rs
 //@fmtfns
 
 //@assume eval_node
@@ -63,6 +64,8 @@ verus! {
 //@verify model_check_multiple_formulae
 //@verify _model_check_formula
 //@verify model_check_formula
+//@trusted from_single_tree
+//@verify model_check_formula_unsafe_ex
 
 fn main() {}
 } // verus!
